@@ -233,6 +233,15 @@ class MiniEval:
                     owner, ex = got
                     oc = P.classes[owner]
                     return MiniEval(P, oc.module, oc, self.attrs).expr(ex, {})
+            if d and d.startswith("self.") and d.count(".") == 1 and self.cls is not None:
+                # a write-once field derived in __init__ from other fields (`self._classes = tuple(self._filter) if ... else None`)
+                # means what its defining expression means under the given field values
+                from .flow import _init_store
+
+                got = _init_store(P, self.cls.name, e.attr)
+                if got is not None and not isinstance(got[1], ast.Name):
+                    oc = P.classes[got[0]]
+                    return MiniEval(P, oc.module, oc, self.attrs).expr(got[1], {})
             if d and d.split(".")[0] in self.module.imports and ".".join([self.module.imports[d.split(".")[0]]] + d.split(".")[1:]) in OPERATOR_FUNCS:
                 return _Op(OPERATOR_FUNCS[".".join([self.module.imports[d.split(".")[0]]] + d.split(".")[1:])])
             v = P.fold(e, self.module, self.cls)
